@@ -76,6 +76,12 @@ Definition check (c : case) : bool :=
       let ft := table_ts ttab in
       bytes_eqb (encode_json ff ft false v) c && bytes_eqb (encode_json ff ft true v) p
       && pres_eqb (pres_of (parse_json c)) rc && pres_eqb (pres_of (parse_json p)) rp
+      (* the hypothesis of C21_roundtrip_floats on the texts the implementation printed: it holds exactly when
+         the implementation brought the value back within one ulp *)
+      && (if jrep (fun _ => true) v && (vdepth v <? 128)%N
+          then Bool.eqb (jrep (fun f => float_text_ok (ff f) f) v)
+                        (match rc with POk x => value_close v x | PErr => false end)
+          else true)
   | CParse s r strict serde lossy again =>
       pres_eqb (pres_of (parse_json s)) r
       && pres_eqb (pres_of (parse_json_strict s)) strict
